@@ -9,6 +9,7 @@ import (
 // C13 — an expression means the same everywhere; pipes compose left to right.
 
 //verif:harness VerifC13_Positions quick.maxpaths=100000 thorough.maxpaths=600000 timeout=3000
+//verif:harness VerifC13_MixedTypes quick.maxpaths=20000 thorough.maxpaths=100000 timeout=1800
 //verif:harness VerifC13_Pipes quick.maxpaths=60000 thorough.maxpaths=300000 timeout=2400
 //verif:harness VerifC13_Errors quick.maxpaths=20000 thorough.maxpaths=100000 timeout=1800
 
@@ -290,4 +291,58 @@ func VerifC13_Errors() {
 	zzAssert(err != nil, "C13.err.not-reported")
 	zzAssert(strings.Contains(err.Error(), name), "C13.err.names-function")
 	zzAssert(out == "", "C13.err.partial-output")
+}
+
+type zzC13Product struct {
+	Price int
+	Stock int
+}
+
+type zzC13Order struct {
+	Stock int
+	Price int
+}
+
+// VerifC13_MixedTypes: one expression text evaluated on one engine over
+// values of different Go types (in a loop, and in consecutive renders) gives
+// the conventional value for each of them.
+func VerifC13_MixedTypes() {
+	mode := zzChoice("mode", 3)
+	tpl := NewFS(nil)
+	switch mode {
+	case 0: // mixed list in one loop
+		order := zzChoice("order", 3)
+		lists := [][]any{{1, "a", 1.0, int64(1)}, {"a", 1, 2}, {1.0, 1, "1"}}
+		wants := []string{"[true][false][true][true]", "[false][true][false]", "[true][true][false]"}
+		out, err := zzRender(tpl, `<p v-for="item in xs">[{{ item == 1 }}]</p>`, map[string]any{"xs": lists[order]})
+		zzNote("out", out)
+		zzAssert(err == nil, "C13.mixed.render-error")
+		zzAssert(strings.Join(strings.Fields(strings.ReplaceAll(strings.ReplaceAll(out, "<p>", ""), "</p>", "")), "") == wants[order], "C13.mixed.loop-values")
+	case 1: // consecutive renders with differently typed scalars
+		first := zzChoice("first", 4)
+		second := zzChoice("second", 4)
+		vals := []any{1, 1.0, "1", int64(2)}
+		wants := []string{"true", "true", "false", "false"}
+		body := `<p>[{{ n == 1 }}]</p><i v-if="n == 1">IF</i><b :t="n == 1">b</b>`
+		_, err1 := zzRender(tpl, body, map[string]any{"n": vals[first]})
+		out2, err2 := zzRender(tpl, body, map[string]any{"n": vals[second]})
+		zzNote("out", out2)
+		zzAssert(err1 == nil && err2 == nil, "C13.mixed.render-error")
+		zzAssert(strings.Contains(out2, "["+wants[second]+"]"), "C13.mixed.interpolation")
+		zzAssert(strings.Contains(out2, ">IF<") == (wants[second] == "true"), "C13.mixed.v-if")
+		zzAssert(strings.Contains(out2, `t="true"`) == (wants[second] == "true"), "C13.mixed.bound-attribute")
+	case 2: // struct values with the same field names in a different order
+		first := zzBool("productFirst")
+		var a, b any = zzC13Product{Price: 5, Stock: 9}, zzC13Order{Stock: 7, Price: 3}
+		wa, wb := "[6]", "[4]"
+		if !first {
+			a, b, wa, wb = b, a, wb, wa
+		}
+		body := `<p>[{{ o.Price + 1 }}]</p>`
+		out1, err1 := zzRender(tpl, body, map[string]any{"o": a})
+		out2, err2 := zzRender(tpl, body, map[string]any{"o": b})
+		zzNote("out", out1+out2)
+		zzAssert(err1 == nil && err2 == nil, "C13.mixed.render-error")
+		zzAssert(strings.Contains(out1, wa) && strings.Contains(out2, wb), "C13.mixed.struct-field-values")
+	}
 }
